@@ -104,10 +104,10 @@ def data_go(routes):
     out.append("}")
     return "\n".join(out) + "\n"
 
-nrandom = 16 if tier == "quick" else 120
+nrandom = 10 if tier == "quick" else 120
 sets = list(CURATED) + [random_set() for _ in range(nrandom)]
 packages, path_cases, inst_cases = [], [], []
-maxn = 5 if tier == "quick" else 7
+maxn = 4 if tier == "quick" else 7
 for si, routes in enumerate(sets):
     name = "r%d" % si
     packages.append({"name": name, "spec": spec_for(routes), "extra_go": {"data.go": data_go(routes)}, "meta": {"routes": routes}})
